@@ -326,8 +326,9 @@ func (d *Driver) Run() *Rec {
 		p := d.proc(st.G)
 		// issue order = script order: wait until the process is idle
 		if !p.waitIdle(d.wd + 2*time.Second) {
+			// a call that never returned is an observation (Watchdog/Stuck events), not a harness problem:
+			// the rest of the script is skipped and the monitors judge what was recorded
 			d.rec.Log("Stuck", "g", st.G, "at", idx)
-			d.inconclusive("process " + st.G + " stuck before step " + fmt.Sprint(idx))
 			break
 		}
 		p.mu.Lock()
